@@ -93,6 +93,10 @@ def _tree(depth: int, rich: bool, clip: bool = False) -> st.SearchStrategy[Any]:
         options.append(st.tuples(st.sampled_from(["+", "-", "*", "/", "max", "min"]), sub, const_q).map(list))
         options.append(st.tuples(st.sampled_from(["max", "min"]), sub, sub).map(list))
         options.append(st.tuples(st.sampled_from(["cons", "prod"]), sub).map(list))
+        # the same binary method before and after a unary one on one builder: x.op(b).unary().op(c)
+        options.append(st.tuples(st.sampled_from(["max", "min", "max", "min", "+", "-", "*", "/"]),
+                                 st.sampled_from(["cons", "prod"]), sub, sub, sub).map(
+            lambda t: [t[0], [t[1], [t[0], t[2], t[3]]], t[4]]))
     if clip:
         bound = st.one_of(st.none(), st.sampled_from([-2.0, 0.0, 1.0, 2.5]))
         options.append(st.tuples(st.just("clip"), sub, bound, bound).map(
